@@ -32,6 +32,7 @@ def main(argv=None):
     ap.add_argument("--tier", default=os.environ.get("VERIF_TIER", "quick"))
     ap.add_argument("--repo", default=os.environ.get("VERIF_REPO", "/repo"))
     ap.add_argument("--quiet", action="store_true")
+    ap.add_argument("--no-evidence", action="store_true", help="self-test runs: do not touch /verif/evidence")
     a = ap.parse_args(argv)
     pid = a.pid.upper()
     tier = a.tier if a.tier in ("quick", "thorough") else "quick"
@@ -41,6 +42,7 @@ def main(argv=None):
         print("ANALYSIS-ERROR no check for %s: %s" % (pid, e))
         return 2
     chk = Check(pid, tier, getattr(mod, "LEVEL", LEVELS.get(pid, "other")), quiet=a.quiet)
+    chk.write_evidence = not a.no_evidence
     try:
         repo = Repo(a.repo)
         cnt = repo.counts()
